@@ -75,7 +75,7 @@ def generate(rng, tier, idx):
         # very many short records (more than 2^17) handed over in one piece or in a few large same-tick chunks: sizes at which
         # per-record work done with spread calls, recursion or repeated array copies starts to matter
         line = rng.choice(['1\n', 'a\r\n', '7\n', 'x,y\n'])
-        count = rng.choice([131072 + 100, 150000, 262144 + 50])
+        count = rng.choice([66000, 131072 + 100, 131072 + 100, 140000])
         text = line * count + rng.choice(['', 'end'])
         sc['text'] = text
         sc['mode'] = 'stream'
@@ -212,7 +212,8 @@ def execute(sc):
     jdata = sc['join_text'].encode('utf-8') if sc.get('join_text') is not None else None
     if jdata is not None:
         common['join_hex'] = jdata.hex()
-    bulk = jsbridge.call(dict(common, mode='bulk', hex=data.hex()))
+    slow_ok = 400 if sc.get('many_records') else 60      # a reader that is merely slow on very many records is not this property's business
+    bulk = jsbridge.call(dict(common, mode='bulk', hex=data.hex()), timeout_s=slow_ok)
     res['evals'] += 1
     two = sc.get('join_text') is not None
     invalid = bool(sc.get('tail_hex')) and sc['encoding'] == 'utf-8'
@@ -247,7 +248,7 @@ def execute(sc):
     outs = []
     B = 64
     for i in range(0, len(requests), B):
-        rr = jsbridge.call({'kind': 'batch', 'common': common, 'requests': requests[i:i + B]})
+        rr = jsbridge.call({'kind': 'batch', 'common': common, 'requests': requests[i:i + B]}, timeout_s=slow_ok)
         outs.extend(rr['responses'])
     digest_parts = [ref]
     for pieces, r in zip(parts, outs):
